@@ -105,7 +105,7 @@ fn judge(rep: &mut Report, sig: String, rule: &str, w: &Word, expected: Option<W
     if nontrivial { rep.nontrivial_enum(1); }
     let rules = match compile1(rule) {
         Ok(r) => r,
-        Err(Applied::Err(k)) => { if !accept_err { let r = rule.to_string(); rep.violation(format!("{sig}:rule-rejected"), || { let mut c = key.clone(); c["rule"] = json!(r); c["word"] = json!(sw::render(w)); json!({"case": c, "expected": "rule parses", "observed": k}) }); } return }
+        Err(Applied::Err(k)) => { if !accept_err && expected.is_some() { let r = rule.to_string(); rep.violation(format!("{sig}:rule-rejected"), || { let mut c = key.clone(); c["rule"] = json!(r); c["word"] = json!(sw::render(w)); json!({"case": c, "expected": "rule parses", "observed": k}) }); } return }
         Err(o) => { let r = rule.to_string(); rep.abort(o.tag(), || json!({"rule": r})); return }
     };
     let got = apply(&rules, w);
